@@ -130,6 +130,9 @@ def findInflectionPoints (c : Cub Float) : Float × Float :=
   let a := ay * bx - ax * by'
   let b := ay * cx - ax * cy
   let cc := by' * cx - bx * cy
+  -- 33b2fe8: the coefficients are normalised before the absolute zero tests of the solver
+  let m := goMax (Float.abs a) (goMax (Float.abs b) (Float.abs cc))
+  let (a, b, cc) := if 0.0 < m then (a / m, b / m, cc / m) else (a, b, cc)
   let (x1, x2) := solveQuadraticFormula a b cc
   let eps2 := GenF.Epsilon / 2.0
   let x1 := if x1 < eps2 || 1.0 - eps2 < x1 then nan else x1
@@ -294,6 +297,10 @@ def answer (r : Option (List (Pt Float))) : String :=
   | none => "FUEL"
   | some ps => toString (ps.length - 1) ++ " " ++ showPts (ps.drop 1)
 
+/-- tolerant lines: coordinates divided by the power-of-two scale sent with the case (exact division) -/
+def answerScaled (r : Option (List (Pt Float))) (sc : Float) : String :=
+  answer (r.map fun ps => ps.map fun p => ⟨p.x / sc, p.y / sc⟩)
+
 /-- SIG line: tokens `M x y`, `L x y`, `Z x y`, `K x y` (K = any curve, payload irrelevant) -/
 def parseCmds : List String → Option (List (Cmd Float Unit))
   | [] => some []
@@ -311,6 +318,110 @@ def showSig (s : List (SubSig Float)) : String :=
   toString s.length ++ " " ++ String.intercalate " " (s.map fun g =>
     hexOfFloat g.start.x ++ " " ++ hexOfFloat g.start.y ++ " " ++ hexOfFloat g.last.x ++ " " ++ hexOfFloat g.last.y ++ " " ++ (if g.closed then "1" else "0"))
 
+/-! ellipseToCubicBeziers / arcToCube (path_util.go:287): control points handed to CubeTo -/
+
+def ellipsePos (rx ry phi cx cy theta : Float) : Pt Float :=
+  let st := Float.sin theta
+  let ct := Float.cos theta
+  let sp := Float.sin phi
+  let cp := Float.cos phi
+  ⟨cx + rx * ct * cp - ry * st * sp, cy + rx * ct * sp + ry * st * cp⟩
+
+def ellipseDeriv (rx ry phi : Float) (sweep : Bool) (theta : Float) : Pt Float :=
+  let st := Float.sin theta
+  let ct := Float.cos theta
+  let sp := Float.sin phi
+  let cp := Float.cos phi
+  let dx := -rx * st * cp - ry * ct * sp
+  let dy := -rx * st * sp + ry * ct * cp
+  if !sweep then ⟨-dx, -dy⟩ else ⟨dx, dy⟩
+
+def arcToCube (start : Pt Float) (rx ry phi : Float) (large sweep : Bool) (e : Pt Float) : Option (List (Pt Float)) :=
+  let (cx, cy, theta0, theta1) := ellipseToCenter start.x start.y rx ry phi large sweep e.x e.y
+  let nF := Float.ceil (Float.abs (theta1 - theta0) / (pi / 2.0))
+  if nF.isNaN || nF < 1.0 || nF > 64.0 then (if nF < 1.0 then some [] else none) else
+  let n := nF.toUInt64.toNat
+  let dtheta := Float.abs (theta1 - theta0) / nF
+  let tn := Float.tan (dtheta / 2.0)
+  let kappa := Float.sin dtheta * (Float.sqrt (4.0 + 3.0 * (tn * tn)) - 1.0) / 3.0
+  let dtheta := if !sweep then -dtheta else dtheta
+  let rec go (i : Nat) (k : Nat) (st : Pt Float) (sd : Pt Float) (acc : List (Pt Float)) : List (Pt Float) :=
+    match k with
+    | 0 => acc.reverse
+    | k + 1 =>
+      let theta := theta0 + i.toFloat * dtheta
+      let en := ellipsePos rx ry phi cx cy theta
+      let ed := ellipseDeriv rx ry phi sweep theta
+      let cp1 := GenF.Point.Add st (GenF.Point.Mul sd kappa)
+      let cp2 := GenF.Point.Sub en (GenF.Point.Mul ed kappa)
+      go (i + 1) k en ed (en :: cp2 :: cp1 :: acc)
+  some (go 1 n start (ellipseDeriv rx ry phi sweep theta0) [])
+
+/-! xmonotoneQuadraticBezier (path_util.go:705) / xmonotoneCubicBezier (path_util.go:751): the control
+points handed to QuadTo / CubeTo. The K transcription of the quadratic one is `C03L.xmonoQuadK`. -/
+
+def xmonoQuad (p0 p1 p2 : Pt Float) : List (Pt Float) :=
+  let tdenom := p0.x - 2.0 * p1.x + p2.x
+  let whole := [p1, p2]
+  if !GenF.Equal tdenom 0.0 then
+    let t := (p0.x - p1.x) / tdenom
+    if 0.0 < t && t < 1.0 then
+      let r := GenF.quadraticBezierSplit p0 p1 p2 t
+      [r.2.1, r.2.2.1, r.2.2.2.2.1, r.2.2.2.2.2]
+    else whole
+  else whole
+
+def xmonoCubic (c : Cub Float) : List (Pt Float) :=
+  let a := -c.p0.x + 3.0 * c.p1.x - 3.0 * c.p2.x + c.p3.x
+  let b := 2.0 * c.p0.x - 4.0 * c.p1.x + 2.0 * c.p2.x
+  let cc := -c.p0.x + c.p1.x
+  let (t1, t2) := solveQuadraticFormula a b cc
+  let first := !t1.isNaN && GenF.IntervalExclusive t1 0.0 1.0
+  let (out1, cur) := if first then
+      let l := cubSplitL c t1
+      ([l.p1, l.p2, l.p3], cubSplitR c t1) else ([], c)
+  if !t2.isNaN && GenF.IntervalExclusive t2 0.0 1.0 then
+    let t2 := if first then (t2 - t1) / (1.0 - t1) else t2
+    let l := cubSplitL cur t2
+    let r := cubSplitR cur t2
+    out1 ++ [l.p1, l.p2, l.p3, r.p1, r.p2, r.p3]
+  else out1 ++ [cur.p1, cur.p2, cur.p3]
+
+/-! verdict lines: the curve is sampled here (generated Bernstein evaluators), the polyline is the real
+code's output; `coveredBy` is the specification proved sound in CanvasProofs/C03.lean -/
+
+def pairs : List Float → List (Pt Float)
+  | x :: y :: rest => ⟨x, y⟩ :: pairs rest
+  | _ => []
+
+def sampleParams (n : Nat) : List Float := (List.range (n + 1)).map fun k => k.toFloat / n.toFloat
+
+/-- `HD deg ctrl… tol bound round poly…` -/
+def hausdorffVerdict (deg : String) (fs : List Float) : Option String := do
+  let nctrl := if deg == "2" then 6 else if deg == "3" then 8 else 0
+  if nctrl == 0 || fs.length < nctrl + 3 then none
+  let ctrl := pairs (fs.take nctrl)
+  let rest := fs.drop nctrl
+  match rest with
+  | tol :: bound :: round :: polyF =>
+    let poly := pairs polyF
+    let pos : Float → Option (Pt Float) := fun t =>
+      match ctrl with
+      | [a, b, c] => some (GenF.quadraticBezierPos a b c t)
+      | [a, b, c, d] => some (GenF.cubicBezierPos a b c d t)
+      | _ => none
+    let samples ← (sampleParams 256).mapM pos
+    let r := bound * tol + round
+    if poly.length < 2 then pure "skip polyline-of-one-point"
+    else if coveredBy (r * r) samples poly then pure "ok"
+    else
+      -- report the worst sample for the replay
+      let worst := samples.foldl (fun m s =>
+        let d := (edges poly).foldl (fun acc e => let x := distSqPointSeg s e.1 e.2; if x < acc then x else acc) inf
+        if d > m then d else m) 0.0
+      pure ("FAIL hausdorff dev=" ++ toString (Float.sqrt worst) ++ " ratio=" ++ toString (Float.sqrt worst / tol) ++ " bound=" ++ toString bound)
+  | _ => none
+
 end C03F
 
 open C03F in
@@ -322,12 +433,12 @@ def handle : List String → Option String
     | _ => none
   | "FS" :: args => do
     match ← floats args with
-    | [a, b, c, d, e, f, g, h, tol] =>
-      pure (answer ((smooth [⟨a, b⟩] ⟨⟨a, b⟩, ⟨c, d⟩, ⟨e, f⟩, ⟨g, h⟩⟩ tol).map List.reverse))
+    | [a, b, c, d, e, f, g, h, tol, sc] =>
+      pure (answerScaled ((smooth [⟨a, b⟩] ⟨⟨a, b⟩, ⟨c, d⟩, ⟨e, f⟩, ⟨g, h⟩⟩ tol).map List.reverse) sc)
     | _ => none
   | "FC" :: args => do
     match ← floats args with
-    | [a, b, c, d, e, f, g, h, tol] => pure (answer (flattenCubic ⟨⟨a, b⟩, ⟨c, d⟩, ⟨e, f⟩, ⟨g, h⟩⟩ tol))
+    | [a, b, c, d, e, f, g, h, tol, sc] => pure (answerScaled (flattenCubic ⟨⟨a, b⟩, ⟨c, d⟩, ⟨e, f⟩, ⟨g, h⟩⟩ tol) sc)
     | _ => none
   | "INF" :: args => do
     match ← floats args with
@@ -337,11 +448,28 @@ def handle : List String → Option String
     | _ => none
   | "FA" :: large :: sweep :: args => do
     match ← floats args with
-    | [x1, y1, rx, ry, phi, x2, y2, tol] =>
+    | [x1, y1, rx, ry, phi, x2, y2, tol, sc] =>
       match flattenCircle ⟨x1, y1⟩ rx ry phi (large == "1") (sweep == "1") ⟨x2, y2⟩ tol with
       | none => pure "NOTCIRCLE"
-      | some ps => pure (answer (some ps))
+      | some ps => pure (answerScaled (some ps) sc)
     | _ => none
+  | "AC" :: large :: sweep :: args => do
+    match ← floats args with
+    | [x1, y1, rx, ry, phi, x2, y2, sc] =>
+      match arcToCube ⟨x1, y1⟩ rx ry phi (large == "1") (sweep == "1") ⟨x2, y2⟩ with
+      | none => pure "TOO-MANY"
+      | some ps => pure (showPts (ps.map fun p => ⟨p.x / sc, p.y / sc⟩))
+    | _ => none
+  | "XQ" :: args => do
+    match ← floats args with
+    | [a, b, c, d, e, f] => pure (showPts (xmonoQuad ⟨a, b⟩ ⟨c, d⟩ ⟨e, f⟩))
+    | _ => none
+  | "XC" :: args => do
+    match ← floats args with
+    | [a, b, c, d, e, f, g, h] => pure (showPts (xmonoCubic ⟨⟨a, b⟩, ⟨c, d⟩, ⟨e, f⟩, ⟨g, h⟩⟩))
+    | _ => none
+  | "HD" :: deg :: args => do
+    hausdorffVerdict deg (← floats args)
   | "SIG" :: toks => do
     let cs ← parseCmds toks
     -- the signature of the spliced command list: LineTo's and Join's tests are both Point.Equals
